@@ -1,4 +1,5 @@
 import GontainerModel.Props.C19
 #print axioms GM.C19.fixpoint_stable
 #print axioms GM.C19.shipped_wiring
+#print axioms GM.C19.yaml_declares_wiring
 #print axioms GM.C19.verbose_steps
